@@ -11,8 +11,18 @@ TOL = 1e-10
 
 
 def pick_problem(rng, Lmin=1, Lmax=7, maxdim=512):
-    src = str(rng.choice(['model', 'model', 'hermitian-random', 'hermitian-charge-free']))
-    if src == 'model':
+    src = str(rng.choice(['model', 'model', 'hermitian-random', 'hermitian-charge-free', 'nn-pattern']))
+    if src == 'nn-pattern':
+        # hand-built nearest-neighbour Hamiltonian with site-dependent parameter patterns (staggered, impurity, period 3, blocks, ...)
+        d = int(rng.choice([2, 2, 3]))
+        lmax = Lmax
+        while d ** lmax > maxdim and lmax > 1:
+            lmax -= 1
+        L = int(rng.integers(max(Lmin, 1), lmax + 1))
+        qd = rng.integers(-1, 2, size=d) if rng.random() < 0.6 else np.zeros(d, dtype=int)
+        H, pat, _ = gen.nn_pattern_hamiltonian(rng, qd, L, cplx=bool(rng.random() < 0.5))
+        label = 'nn-' + pat
+    elif src == 'model':
         name = str(rng.choice(['ising', 'xxz', 'xxz1', 'bose3', 'fermi']))
         d = gen.MODEL_D[name]
         lmax = Lmax
